@@ -262,6 +262,18 @@ def _check_literals(part: Part, tier, seed):
         if back is not None and not _deep_same(back, v):
             part.violation("parsing a rendered literal back yields the same value (or None)", f"parse:{type(v).__name__}",
                            {"value": repr(v), "rendered": src, "parsed": repr(back)}, target=f"{LG}:parse_literal")
+        if back is None:
+            # None is the answer for renderings that are not literals (float('inf') inside a list ...); where Python's own
+            # literal evaluation reads the rendering as a value of the type, parsing back must not give up
+            import ast as _ast
+            try:
+                ref = _ast.literal_eval(src)
+                readable = isinstance(ref, type(v)) and _deep_same(ref, v)
+            except (ValueError, SyntaxError, TypeError, MemoryError, RecursionError):
+                readable = False
+            if readable:
+                part.violation("rendering a value and parsing it back yields the same value", f"parse-gives-up:{type(v).__name__}",
+                               {"value": repr(v), "rendered": src, "parsed": None, "ast.literal_eval": repr(ref)}, target=f"{LG}:parse_literal")
     # (b) generation and mutation: valid Python of the requested type, under seeded random draws and configurations
     saved = (config.configuration.seeding.seeded_primitives_reuse_probability, config.configuration.test_creation.max_int,
              config.configuration.search_algorithm.random_perturbation, config.configuration.test_creation.string_length)
